@@ -13,7 +13,7 @@ import math
 import traceback
 from collections import Counter
 
-MAX_VIOLATIONS_KEPT = 40
+MAX_VIOLATIONS_KEPT = 120
 MAX_SAMPLES = 8
 
 
@@ -61,6 +61,8 @@ class Ctx:
         self.violations: list[dict] = []
         self.n_violations = 0
         self.viol_kinds: Counter = Counter()
+        self.viol_groups: Counter = Counter()
+        self.overflow_groups = 0
         self.events: Counter = Counter()
         self.forced: Counter = Counter()
         self.counters: Counter = Counter()
@@ -110,18 +112,17 @@ class Ctx:
         """
         self.n_violations += 1
         self.viol_kinds[kind] += 1
-        if (
-            len(self.violations) < MAX_VIOLATIONS_KEPT
-            or self.viol_kinds[kind] <= 3
-        ):
+        jkeys = jsonable(keys)
+        # one group per (kind, mechanism keys): every group keeps representatives, so that
+        # the known-findings classification never has to guess about a dropped witness
+        group = kind + '|' + json.dumps(jkeys, sort_keys=True)
+        self.viol_groups[group] += 1
+        if self.viol_groups[group] <= 3 and len(self.violations) < MAX_VIOLATIONS_KEPT:
             self.violations.append(
-                {
-                    'kind': kind,
-                    'what': what,
-                    'keys': jsonable(keys),
-                    'case': jsonable(case),
-                }
+                {'kind': kind, 'what': what, 'keys': jkeys, 'case': jsonable(case), 'group': group}
             )
+        elif group not in {v['group'] for v in self.violations}:
+            self.overflow_groups += 1
 
     def inconclusive_because(self, reason: str):
         if reason not in self.inconclusive:
@@ -145,6 +146,8 @@ class Ctx:
             'violations': self.violations,
             'n_violations': self.n_violations,
             'viol_kinds': dict(self.viol_kinds),
+            'viol_groups': dict(self.viol_groups),
+            'overflow_groups': self.overflow_groups,
             'events': dict(self.events),
             'forced': dict(self.forced),
             'counters': dict(self.counters),
